@@ -95,6 +95,9 @@ type run struct {
 	tracing   bool
 	traces    []traceRec
 	syncMaps  map[*value]map[string]value
+	jsonEncW  map[*value]value // json.Encoder -> the writer it was made for
+	symCopies map[*value]bool  // read-only materialisations of table[symbolic index]
+	curves    map[string]value // opaque named curves handed out so far
 	onceDone  map[*value]bool
 	pools     map[*value][]value  // sync.Pool contents (worst case: last put is next got)
 	frozen    map[*value]string   // cells no operation may write to -> obligation label
@@ -666,6 +669,9 @@ func (e *engine) runPath(sol *Solver, entry *ssa.Function, args []value, prefix 
 		facts:      map[string]string{},
 		maxLen:     e.maxLen,
 		syncMaps:   map[*value]map[string]value{},
+		jsonEncW:   map[*value]value{},
+		symCopies:  map[*value]bool{},
+		curves:     map[string]value{},
 		onceDone:   map[*value]bool{},
 		pools:      map[*value][]value{},
 		frozen:     map[*value]string{},
